@@ -108,32 +108,42 @@ theorem states_puso (cfg : Cfg ρ α) (H : Obj) (P : Params ρ α) (rs : List Re
     refine ⟨hsp, by rw [hst]; exact relabelState_vals _ _ hg.2, N, model, rev, hd, ?_⟩
     rw [hst, relabelState_fst, hg.1]
 
-/-- Matrix input (`QUSOMatrix`): the state assigns a value to every index `0..max_index`. -/
-theorem domain_matrix_quso (cfg : Cfg ρ α) (L : Obj) (P : Params ρ α) (rs : List Res) (m : Nat)
-    (hk : L.kind = .qusom) (hm : L.maxIndex = some m) (h : annealQuso cfg L P = .ok rs)
+/-- Matrix input (`QUSOMatrix`): the state assigns a value to every index `0..max_index`; for a Matrix
+without variables (`max_index is None`, e.g. `QUSOMatrix({(): 5})`) the state is empty. -/
+theorem domain_matrix_quso (cfg : Cfg ρ α) (L : Obj) (P : Params ρ α) (rs : List Res)
+    (hk : L.kind = .qusom) (h : annealQuso cfg L P = .ok rs)
     (hinit : ∀ d, P.init = some d → ∀ p ∈ d, p.2 = 1 ∨ p.2 = -1) :
-    ∀ r ∈ rs, r.state.map Prod.fst = List.range (m + 1) := by
+    ∀ r ∈ rs, r.state.map Prod.fst = List.range (L.maxIndex.elim 0 (· + 1)) := by
   intro r hr
   obtain ⟨_, _, N, model, rev, hd, hst⟩ := states_quso cfg L P rs h hinit r hr
-  simp only [dispatchQuso, hk, if_true, hm, pure, Except.pure, bind, Except.bind] at hd
-  injection hd with hd
-  injection hd with h1 h2; injection h2 with h2 h3
-  subst h1; subst h3
-  rw [hst]
+  have hd' : N = L.maxIndex.elim 0 (· + 1) ∧ rev = List.range N := by
+    cases hm : L.maxIndex with
+    | none =>
+      simp only [dispatchQuso, hk, if_true, hm, pure, Except.pure, bind, Except.bind] at hd
+      injection hd with hd
+      injection hd with h1 h2; injection h2 with h2 h3
+      subst h1; subst h3; exact ⟨rfl, rfl⟩
+    | some m =>
+      simp only [dispatchQuso, hk, if_true, hm, pure, Except.pure, bind, Except.bind] at hd
+      injection hd with hd
+      injection hd with h1 h2; injection h2 with h2 h3
+      subst h1; subst h3; exact ⟨rfl, rfl⟩
+  obtain ⟨hN, hrev⟩ := hd'
+  rw [hst, hrev, ← hN]
   apply List.ext_getElem (by simp)
   intro i h1 h2
   simp only [List.length_map, List.length_range] at h1
   simp [List.getD, List.getElem?_range h1]
 
-/-- **D4, as the model has it**: a `QUSOMatrix` without variables makes `anneal_quso` raise `TypeError`
-(`max_index + 1` with `max_index is None`) instead of returning `num_anneals` results — the case the
-hypothesis `L.maxIndex = some m` of `domain_matrix_quso` excludes. -/
-theorem matrix_without_variables_quso (cfg : Cfg ρ α) (L : Obj) (P : Params ρ α) (Ts : List α)
+/-- A `QUSOMatrix` without variables (`QUSOMatrix({(): 5})`, `QUSOMatrix()`): `num_anneals` results with
+empty state whose value is the offset (the `N == 0` shortcut; formerly a `TypeError`, DESIGN.md §10 D4). -/
+theorem empty_matrix_quso (cfg : Cfg ρ α) (L : Obj) (P : Params ρ α) (Ts : List α)
     (hk : L.kind = .qusom) (hm : L.maxIndex = none) (hn : 0 < P.numAnneals)
-    (hs : createSchedule P.schedule = .ok Ts) : annealQuso cfg L P = .error .type := by
+    (hs : createSchedule P.schedule = .ok Ts) :
+    annealQuso cfg L P = .ok (List.replicate P.numAnneals.toNat ⟨[], get L.terms [], true⟩) := by
   have : ¬ P.numAnneals ≤ 0 := by omega
-  simp [Anneal.annealQuso, prep, this, hs, dispatchQuso, hk, hm, bind, Except.bind, throw, throwThe,
-    MonadExceptOf.throw]
+  simp [Anneal.annealQuso, prep, this, hs, dispatchQuso, hk, hm, bind, Except.bind, pure, Except.pure,
+    emptyResults]
 
 /-- Boolean functions: `spin = False`, values in `{0,1}`, and the labels are those of the spin result
 of the converted model. -/
@@ -332,9 +342,10 @@ example : (Anneal.annealQubo (ratCfg Ex.src) Ex.Q (Ex.P false (some [(0, 1), (1,
 example : (Anneal.annealPubo (ratCfg Ex.src) Ex.Q (Ex.P true none)).toOption.map List.length = some 2 := by
   decide +kernel
 
-/-- D4 is reachable in the model: `QUSOMatrix({(): 5})` -/
-example : (Anneal.annealQuso (ratCfg Ex.src) { kind := .qusom, terms := [([], 5)] } (Ex.P true none)).toOption.isSome
-    = false := by decide +kernel
+/-- a Matrix without variables, `QUSOMatrix({(): 5})`: two results, empty state, value = offset -/
+example : (Anneal.annealQuso (ratCfg Ex.src) { kind := .qusom, terms := [([], 5)] } (Ex.P true none)).toOption
+    = some [⟨[], 5, true⟩, ⟨[], 5, true⟩] := by decide +kernel
+example : ({ kind := .qusom, terms := [([], 5)] } : Obj).maxIndex = none := rfl
 
 /-- `best` of a three-element list with a tie -/
 example : (best [⟨[], 2, true⟩, ⟨[(0, 1)], 1, true⟩, ⟨[(0, -1)], 1, true⟩]).map (·.value) = some 1 := by
